@@ -1,0 +1,15 @@
+//go:build verif
+
+package predict
+
+// This file is only compiled with the build tag "verif".  It exposes
+// unexported helpers to the verification harness; it adds no behaviour of
+// its own.
+
+// VerifPaeth calls paethPredictor.
+func VerifPaeth(a, b, c byte) byte { return paethPredictor(a, b, c) }
+
+// VerifSizes returns the derived row sizes of p.
+func VerifSizes(p *Params) (bytesPerRow, bytesPerPixel int) {
+	return p.bytesPerRow(), p.bytesPerPixel()
+}
